@@ -48,7 +48,7 @@ CLAIMED["C07"] = dict(
          "periodic axes) the extracted task graph satisfies: reset counter = in-degree, edges respect the phase order (acyclic), "
          "child capacity 7, touched subgrids are covered by held locks, the two locks differ, source tasks reach everything, "
          "each interface is owned by one task; the worker loop follows execute -> stop -> unlock -> release children -> "
-         "self-decrement. These premises imply exactly-once, ordering, mutual exclusion and termination for every schedule by the "
+         "self-decrement; the queues' hand-out rules (C08 Q3, Q4) hold. These premises imply exactly-once, ordering, mutual exclusion and termination for every schedule by the "
          "argument in DESIGN.md C07.",
     note="Assumes mutual neighbour tables (A1), the container guarantees of C08 and a fair OpenMP runtime; trusted base: clang, AST export, the extractor.")
 
@@ -80,12 +80,15 @@ CLAIMED["C05"] = dict(
 CLAIMED["C09"] = dict(
     level="other", design="3/C09",
     technique="static analysis: serialization-grammar extraction of every restart writer and reader (ordered trees of primitives, "
-              "objects, loops, conditions tied to members) and item-by-item agreement; member-coverage and operation-tree rules",
+              "objects, loops, conditions tied to members) and item-by-item agreement; member-coverage and operation-tree rules; CAS comparison "
+              "of dump bounds with allocated sizes; finite evaluation of derived members",
     text="Decides that the dump is complete and symmetric for every stop point at once: for every restartable class the writer grammar "
          "equals the reader grammar (shape, primitive size/class, member identity and member type, loop bounds, conditions), the dump "
          "site and the restart path of the task-based RHD driver exchange the same sequence with optional components guarded "
          "consistently, every data member in the state closure of the dump is round-tripped, re-derived by the primary constructor's own "
-         "floating-point operation tree, or a listed transient, the restart factories know every dumpable class, the primitive codec is "
+         "floating-point operation tree, rebuilt from a derived value by a reader that inverts the writer on every state (finite "
+         "evaluation), or a listed transient; containers dumped element by element are dumped with the size the primary constructor "
+         "allocates; the restart factories know every dumpable class, the primitive codec is "
          "symmetric, and no two stream reads are unsequenced. Bit-identity of the continued run itself is not decided.",
     note="Trusted: clang, AST export, initialisation order as reported by clang; assumes no continuation-relevant state outside the dumped objects; "
          "the transient table (cmiv/rules/c09.py) is confirmed by reading, one reason per member.")
@@ -93,14 +96,16 @@ CLAIMED["C09"] = dict(
 CLAIMED["C08"] = dict(
     level="other", design="3/C08",
     technique="static analysis: per-operation typestate / lockset / confirmed-value path rules on the CFG of every container method "
-              "and instantiation; symbolic old/new-value check of the atomic wrappers",
+              "and instantiation; symbolic old/new-value check of the atomic wrappers; zone abstract interpretation with a ghost position for "
+              "the queue's gap closing",
     text="Decides, for every instantiation, the per-operation facts from which the hand-out guarantees follow for every interleaving: "
          "each AtomicValue method is exactly one atomic access with the right delta and result; ThreadLock is a thin test-and-set; a "
          "pool index is returned only after its flag was won, flags are flipped only by acquire/release, the occupancy counter nets +1 "
          "per hand-out and 0 otherwise and is only changed by read-modify-writes, released ranges are reset; queue state is touched only "
          "under the queue lock which is released once on every path; a task index is handed out only after lock_dependency() succeeded "
-         "on exactly that entry and it left the live range; two-lock acquisition rolls back; overflow copies use one shared counter. "
-         "Progress under contention and the array-shift invariant are not decided.",
+         "on exactly that entry and it left the live range, and the position it was handed out from is overwritten whenever it is still "
+         "below the fill counter; two-lock acquisition rolls back (loop forms included); overflow copies use one shared counter. "
+         "Progress under contention and full multiset preservation by the gap closing are not decided.",
     note="Trusted: C++11 memory model for std::atomic RMW, clang, AST export. Statistics fields (QUEUE_STATS) are outside the lock rule.")
 
 CLAIMED["C19"] = dict(
@@ -129,12 +134,13 @@ CLAIMED["C02"] = dict(
 CLAIMED["C03"] = dict(
     level="other", design="3/C03",
     technique="static analysis: partial evaluation of the four direction tables over the 27 directions against the code-derived geometric "
-              "signature; structural hand-over and field-set agreement rules",
+              "signature; structural hand-over and field-set agreement rules; pairing rule on the CFG for containers that grow together",
     text="Decides the self-consistency of the hand-over bookkeeping for every layout: opposite-direction table is the geometric involution; "
          "the output/input compatibility tables test exactly the signs of the (opposite) signature; re-positioning snaps exactly the "
          "coordinates fixed by the entry classification; what leaves through direction i is tagged neighbour(i)/opposite(i) and stored in "
          "the buffer of the direction the traversal returned; the estimator fields a packet accumulates are the fields folded from copies "
-         "and reset, over full extents, each copy folded once. Numeric equality between layouts and the neighbour wiring are not decided.",
+         "and reset, over full extents, each copy folded once; the list of copies and the copy -> original map are reset together "
+         "wherever one of them is shrunk. Numeric equality between layouts and the neighbour wiring are not decided.",
     note="Trusted: clang, AST export; signature from C02-T1; assumption A1 (mutual, geometrically correct neighbour tables).")
 
 CLAIMED["C10"] = dict(
@@ -192,13 +198,16 @@ CLAIMED["C06"] = dict(
     level="other", design="3/C06",
     technique="static analysis: forward-substitution extraction of the closed-form balance formulas and computer-algebra sign "
               "certificates (non-negative-coefficient ratios), CAS identities for the hydrogen root and the sibling quadratic arms, "
-              "path-sensitive reaching-definition rule for the temperature cap",
+              "path-sensitive reaching-definition rule for the temperature cap; sign-domain abstract evaluation of the stage-ratio "
+              "denominators (through lambdas and conditional expressions)",
     text="Decides, for all non-negative inputs in real arithmetic: every metal ionic fraction is a ratio of polynomials with non-negative "
          "coefficients and the tracked stages of each element sum to at most 1; the hydrogen-only closed form solves the balance equation, "
          "lies in [floor, 1], decreases with the radiation field and increases with density and recombination rate, and its strong-field arm "
          "is the leading term of the exact root; expansion arm, exact arm and switch variable of both quadratic solves in the H/He "
          "iteration describe the same root; literal special-case arms set every tracked ion to values in [0,1] summing to at most 1 per "
-         "element; every temperature written by the thermal balance is a literal <= 30000 or capped by min(30000, .) on every path. "
+         "element; every temperature written by the thermal balance is a literal <= 30000 or capped by min(30000, .) on every path; "
+         "every stage-ratio denominator that contains a charge-transfer term keeps a strictly positive term on every path (the "
+         "clamped radiative rate may be 0). "
          "Convergence and bounds of the H/He fixed point, the temperature iteration (lower bound, finiteness) and absence of the "
          "`too many iterations` abort are loop properties over runtime values and are not decided.",
     note="Trusted: clang, AST export, sympy; assumes rates, intensities and densities are non-negative (C18 is not decided).")
